@@ -356,6 +356,9 @@ func (w *World) newInst(reg *Reg, call *Call, out int, conc string) (*Inst, any)
 	}
 	in.Created = w.tick()
 	w.Insts = append(w.Insts, in)
+	if conc == "V0" {
+		return in, V0{I: in}
+	}
 	return in, newPool(conc, in)
 }
 
